@@ -165,6 +165,9 @@ def forward(front, multipart, idx, with_alg, full_idx, with_type, with_mpu, supp
                     return 'c15: CRC32 not the default algorithm although the client asks for checksums'
                 if not supported and not full_given and 'ChecksumAlgorithm' not in given and has:
                     return 'c15: checksum algorithm added although neither user nor client asked'
+                if full_given and 'ChecksumAlgorithm' not in given and has and kw['ChecksumAlgorithm'] not in [
+                        g.replace('Checksum', '') for g in full_given]:
+                    return 'c15: user supplied a full-object checksum but a different checksum algorithm was added'
     return None
 
 
